@@ -64,14 +64,22 @@ fn main() {
             let f = file.unwrap_or_else(|| usage());
             let v: serde_json::Value = serde_json::from_str(&std::fs::read_to_string(&f).unwrap()).unwrap();
             let case = v.pointer("/replay/case").cloned().unwrap_or(v);
+            let case = case.get("hist").cloned().unwrap_or(case);
             let spec: saito_verif::chain::HistSpec = serde_json::from_value(case).unwrap();
             saito_verif::ctx::block_on(async {
                 let built = saito_verif::chain::build_history(&spec).await;
                 let mut n = saito_verif::world::Node::new(spec.ncfg, 0);
                 for (i, b) in built.blocks.iter().enumerate() {
                     let r = n.add(b.clone()).await;
-                    println!("block idx {} id {} parent {:?} txs {} gt {} ft {} -> {} | treasury {} graveyard {} fees {} unpaid {}", i, b.id, built.parent[i], b.transactions.len(), b.has_golden_ticket, b.has_fee_transaction, saito_verif::world::res_str(&r), b.treasury, b.graveyard, b.total_fees, b.previous_block_unpaid);
+                    println!("block idx {} id {} parent {:?} txs {} gt {} ft {} -> {} | treasury {} graveyard {} fees {} unpaid {} payout_atr {} avg_rebroadcast {} supply {:?}", i, b.id, built.parent[i], b.transactions.len(), b.has_golden_ticket, b.has_fee_transaction, saito_verif::world::res_str(&r), b.treasury, b.graveyard, b.total_fees, b.previous_block_unpaid, b.total_payout_atr, b.avg_nolan_rebroadcast_per_block, saito_verif::refmodel::impl_supply_u128(&n.chain, spec.ncfg.gp));
                 }
+                for (pi, b, why) in built.rejected_own.iter() {
+                    println!("builder-rejected block on parent idx {} id {} ({}): txs {:?} treasury {} payout_atr {} fees_atr {} fees_new {} graveyard {}", pi, b.id, why,
+                        b.transactions.iter().map(|t| (saito_verif::world::tx_type_name(t.transaction_type), t.total_in, t.total_out)).collect::<Vec<_>>(), b.treasury, b.total_payout_atr, b.total_fees_atr, b.total_fees_new, b.graveyard);
+                    let r = saito_verif::deliver::guarded_add(&mut n, b.clone(), 1000);
+                    println!("  -> {:?}", r.0);
+                }
+                println!("supply(u128 over impl utxoset) = {:?}", saito_verif::refmodel::impl_supply_u128(&n.chain, spec.ncfg.gp));
                 println!("truncated={} stats={:?}", built.truncated, built.stats());
             });
         }
